@@ -2235,6 +2235,9 @@ def _validate_reindex(
     else:
         reindex_ = ReindexStrategy(blockwise=reindex)
 
+    if method == "blockwise" and any_by_dask and reindex_.blockwise is False:
+        raise ValueError("reindex=False is not a valid choice for method='blockwise' when grouping by dask arrays.")
+
     if reindex_.blockwise is None:
         if method is None:
             # logger.debug("Leaving _validate_reindex: method = None, returning None")
@@ -2911,7 +2914,8 @@ def groupby_reduce(
         partial_agg = partial(dask_groupby_agg, **kwargs)
 
         # if preferred method is already blockwise, no need to rechunk
-        if preferred_method != "blockwise" and method == "blockwise" and by_.ndim == 1:
+        # (labels that are themselves chunked cannot be inspected: the caller vouches for the chunking)
+        if preferred_method != "blockwise" and method == "blockwise" and by_.ndim == 1 and not any_by_dask:
             array = rechunk_for_blockwise(array, axis=-1, labels=by_)
 
         result, groups = partial_agg(
